@@ -116,6 +116,12 @@ def programs(tier):
                                    use('mouter', el('li', 'LEAK', fill_slot='s'))), [])
     same('filled-then-same-macro-unfilled', el('div', el('hide', m3, condition=py('False')), '|',
                                                use('m3', el('li', 'F', fill_slot='s')), '|', use('m3')), [])
+    # slot names that differ only in non-ASCII letters
+    mu = el('section', el('b', 'd1', define_slot='шапка'), '/', el('i', 'd2', define_slot='текст'),
+            '/', el('u', 'd3', define_slot='größe'), el('u', 'd4', define_slot='grüße'), define_macro='mu')
+    same('non-ascii-slot-names', el('div', el('hide', mu, condition=py('False')), '|',
+                                    use('mu', el('em', 'F', I('v'), fill_slot='текст'), el('q', 'G', fill_slot='grüße'))),
+         [['v', 'int', 0]])
     # use with define/condition on the using element
     same('use-with-define-condition', el('div', m1, '|', use('m1', define=[['local', 'who', py('who + 5')]],
                                                             condition=py('cv')), '|', I('who')),
